@@ -44,6 +44,63 @@ fn check_cnf_utils(clauses: &[Clause], evals: &mut u64) -> Option<(String, Strin
         Ok(c) => c,
         Err(p) => return Some(("new-panic".into(), format!("Cnf::new panicked: {}", p))),
     };
+    check_cnf_obj(&cnf, clauses, evals)
+}
+
+/// the clause lists held by a Cnf object, in the harness's representation
+fn clauses_of(cnf: &Cnf) -> Vec<Clause> {
+    cnf.clauses().iter().map(|c| c.iter().map(|l| (l.label().value_usize(), l.polarity())).collect()).collect()
+}
+
+/// Cnf objects have histories too: a formula obtained by `condition` from a parent that has
+/// already answered queries (hasher, orders, printing, evaluation) must behave exactly like a
+/// freshly constructed formula with the same clauses. Returns (description, object, its clauses).
+fn derived_cnfs(clauses: &[Clause], depth: usize) -> Vec<(String, Cnf, Vec<Clause>)> {
+    fn warm(c: &Cnf) {
+        let n = c.num_vars();
+        let _ = guarded(|| {
+            let _ = c.hasher().hash(&PartialModel::new(n));
+            let _ = c.linear_order();
+            if !c.clauses().is_empty() {
+                let _ = c.min_fill_order();
+            }
+            let _ = c.to_dimacs();
+            if n <= 6 {
+                let _ = c.eval(&vec![true; n]);
+            }
+        });
+    }
+    let mut out: Vec<(String, Cnf, Vec<Clause>)> = Vec::new();
+    let parent = match guarded(|| to_cnf(clauses)) {
+        Ok(c) => c,
+        Err(_) => return out,
+    };
+    warm(&parent);
+    let n = parent.num_vars();
+    let mut level: Vec<(String, Cnf)> = vec![("queried parent".to_string(), parent)];
+    for d in 0..depth {
+        let mut next: Vec<(String, Cnf)> = Vec::new();
+        for (desc, c) in level.iter() {
+            for v in 0..n {
+                for pol in [true, false] {
+                    if let Ok(ch) = guarded(|| c.condition(Literal::new(VarLabel::new(v as u64), pol))) {
+                        let cl = clauses_of(&ch);
+                        let dd = format!("{} -> condition(x{}={})", desc, v + 1, pol);
+                        if d + 1 < depth {
+                            warm(&ch);
+                            next.push((dd.clone(), ch.clone()));
+                        }
+                        out.push((dd, ch, cl));
+                    }
+                }
+            }
+        }
+        level = next;
+    }
+    out
+}
+
+fn check_cnf_obj(cnf: &Cnf, clauses: &[Clause], evals: &mut u64) -> Option<(String, String)> {
     let want = normalise(clauses);
     let got: Vec<Clause> = cnf.clauses().iter().map(|c| c.iter().map(|l| (l.label().value_usize(), l.polarity())).collect()).collect();
     *evals += 1;
@@ -313,8 +370,12 @@ fn explore_hasher(clauses: &[Clause], max_levels: usize, rep: &mut Report) -> Op
 
 /// `vars`: the variables that may be decided (None = all of 0..num_vars)
 fn explore_hasher_on(clauses: &[Clause], max_levels: usize, rep: &mut Report, vars: Option<&[usize]>) -> Option<(Vec<HAct>, String)> {
-    let norm = normalise(clauses);
     let cnf = to_cnf(clauses);
+    explore_hasher_obj(&cnf, clauses, max_levels, rep, vars)
+}
+
+fn explore_hasher_obj(cnf: &Cnf, clauses: &[Clause], max_levels: usize, rep: &mut Report, vars: Option<&[usize]>) -> Option<(Vec<HAct>, String)> {
+    let norm = normalise(clauses);
     let n = cnf.num_vars();
     let h0: CnfHasher = cnf.hasher().clone();
     let mut seen: HashSet<Vec<Vec<Option<bool>>>> = HashSet::new();
@@ -610,6 +671,7 @@ pub fn run(ctx: &Ctx) -> Report {
             fams.push((4, multisets(256, 2).into_iter().step_by(5).collect(), "n4_multisets_le2_every_5th"));
         }
     }
+    let (derived_stride, derived_depth) = (ctx.tier.pick(4, 1), ctx.tier.pick(1, 2));
     for (n, mut sets, name) in fams {
         let types = clause_types(n);
         ctx.rotate(&mut sets);
@@ -632,6 +694,22 @@ pub fn run(ctx: &Ctx) -> Report {
                     r.violation("hasher:residual-hash", format!("clause list {} after {:?}: {}", cnf_json(&clauses), hist, w), json!({"kind": "hasher", "cnf": cnf_json(&clauses), "history": hact_json(&hist)}));
                 }
                 r.distinct_nontrivial += r.states - before;
+                // derived objects: formulas obtained by conditioning a parent that has already
+                // answered queries, checked like fresh formulas with the same clauses
+                if (r.traces as usize) % derived_stride == 0 {
+                    for (desc, obj, cl) in derived_cnfs(&clauses, derived_depth) {
+                        r.add_extra("derived_cnf_objects", 1);
+                        let mut ev = 0;
+                        if let Some((k, w)) = check_cnf_obj(&obj, &cl, &mut ev) {
+                            r.violation(format!("cnf:{}", k), format!("clause list {} ({}; the object holds {}): {}", cnf_json(&clauses), desc, cnf_json(&cl), w), json!({"kind": "cnf", "cnf": cnf_json(&clauses)}));
+                        }
+                        r.evaluations += ev;
+                        let nvc = num_vars(&cl);
+                        if let Some((hist, w)) = explore_hasher_obj(&obj, &cl, (nvc + 1).min(2), &mut r, None) {
+                            r.violation("hasher:residual-hash", format!("clause list {} ({}; the object holds {}) after {:?}: {}", cnf_json(&clauses), desc, cnf_json(&cl), hist, w), json!({"kind": "hasher", "cnf": cnf_json(&clauses), "history": hact_json(&hist)}));
+                        }
+                    }
+                }
                 if r.n_violations > 32 {
                     break;
                 }
